@@ -189,7 +189,7 @@ def run(R):
                 tiers["central"].append((p, e))
             if e.get("k") == "call" and e.get("opcall") == "()" and e.get("type") == "void":
                 o = strip_move(e.get("obj"))
-                if isinstance(o, dict) and o.get("k") == "var" and o.get("type") == "dispenso::OnceFunction":
+                if isinstance(o, dict) and o.get("k") == "var" and o.get("ctype") == "dispenso::OnceFunction":
                     # which ring tier feeds this variable: the try_pop in the guarding loop condition
                     for atom, pol, b in fn.guard_atoms(p):
                         a = strip_casts(atom)
